@@ -653,6 +653,18 @@ fn exec_op(op: &Value, ctx: &mut Ctx) {
                 }
             }
         }
+        "rerun" => {
+            // run() re-entered from a closure (legitimate from the idle item)
+            if let Ctx::S(s) = ctx {
+                let t = inst(&op["t"]);
+                let idle = op["idle"].as_bool().unwrap_or(false);
+                ev(format!(r#"{{"e":"run","t":{},"idle":{}}}"#, tj(t), idle));
+                let r = s.run(t, idle);
+                ev(format!(r#"{{"e":"runend","ret":{},"now":{}}}"#, r, tj(s.now())));
+            } else {
+                panic!("harness: rerun needs stakker");
+            }
+        }
         "nexp" => {
             if let Ctx::S(s) = ctx {
                 let x = s.next_expiry();
